@@ -81,6 +81,22 @@ def make_lines(fidx, style, ndocs, meta, last_newline, seed):
             doc = ('{"f":%d,"n":%d,"w":"%s"}' % (fidx, i, w)).encode("utf-8")
         elif style == "padded":
             doc = b"  \t" + (b'{"f":%d,"n":%d}' % (fidx, i)) + b" \t "
+        elif style == "crlf":
+            # a file written on Windows: every line ends in "\r\n" (one line for the text-mode reader AND for mmap.readline)
+            doc = b'{"f":%d,"n":%d,"p":"%s"}\r' % (fidx, i, b"y" * rng.randrange(0, 6))
+        elif style in ("cr", "ctl"):
+            # a LINE ends at "\n" and only there. "cr": legal JSON (RFC 8259: %x0D is insignificant white space; U+0085, U+2028,
+            # U+2029 may stand unescaped in a string), some lines end in "\r\n". "ctl": additionally the other characters at which
+            # str.splitlines() cuts (\x0b \x0c \x1c \x1d \x1e) inside the string value (not strict JSON; line content all the same).
+            seps = [b",", b", ", b",\r ", b",\r", b"\r,\r\r", b" ,\t\r"]
+            specials = ["\u0085", "\u2028", "\u2029", "\u0085\u2028", "é", ""]
+            if style == "ctl":
+                specials += ["\x0b", "\x0c", "\x1c", "\x1d", "\x1e", "\x0b\x0c\x1c\x1d\x1e\u0085"]
+            w = "".join(rng.choice(specials) + rng.choice(WORDS[:5]) for _ in range(rng.randrange(0, 3)))
+            parts = [b'"f":%d' % fidx, b'"n":%d' % i, ('"w":"%s"' % w).encode("utf-8")]
+            doc = rng.choice([b"{", b"{\r", b"\r{", b"{ "]) + rng.choice(seps).join(parts) + rng.choice([b"}", b"\r}", b"}\r", b"} \r\r", b"}"])
+            if rng.random() < 0.25 and not doc.endswith(b"\r"):
+                doc += b"\r"  # CRLF line end
         else:
             doc = b'{"f":%d,"n":%d,"p":"%s"}' % (fidx, i, b"x" * rng.randrange(0, 12))
         if meta:
@@ -390,7 +406,25 @@ def observed_total_bulks(corpora, s, e, n, bulk, pct, limit):
 # ---------------------------------------------------------------------------------------------
 # stream: files
 # ---------------------------------------------------------------------------------------------
-STYLES = ["ascii", "ascii", "utf8", "utf8", "tiny", "dup", "padded"]
+STYLES = ["ascii", "ascii", "utf8", "utf8", "tiny", "dup", "padded", "cr", "cr", "crlf"]
+# the reader / lines / offsets streams also take "ctl" (not strict JSON: never where the harness has to parse the document)
+BYTE_STYLES = STYLES + ["ctl", "ctl", "cr"]
+
+
+def text_mode_line_count(data):
+    """number of lines a text-mode reader with universal newlines counts in `data` (derived from the bytes):
+    every "\n", every "\r" that is not followed by "\n", and an unterminated rest"""
+    bare = data.count(b"\r") - data.count(b"\r\n")
+    return data.count(b"\n") + bare + (1 if data and not data.endswith((b"\n", b"\r")) else 0)
+
+
+def newline_lines(data):
+    """the lines of `data` (terminators kept): a line ends at "\n" and only there"""
+    parts = data.split(b"\n")
+    out = [q + b"\n" for q in parts[:-1]]
+    if parts[-1] != b"":
+        out.append(parts[-1])
+    return out
 
 
 def gen_files(ctx):
@@ -412,7 +446,7 @@ def gen_files(ctx):
                     nd = rng.choice([50001, 50000, 60007, 25001 if meta else 50003])
                     if ctx.tier == "thorough":
                         nd = rng.choice([50001, 100003, 150001, 99999])
-                    style = "tiny" if rng.random() < 0.5 else "ascii"
+                    style = rng.choice(["tiny", "ascii", "crlf"])
                 else:
                     nd = rng.choice([0, 1, 2, 3, 5, 8, 13, 20, 40, 77, 120, rng.randrange(0, 121)])
                     style = rng.choice(STYLES)
@@ -463,9 +497,16 @@ def build_tree(tmp, case):
             with open(path, "wb") as fh:
                 fh.write(b"".join(lines))
             # what DocumentSetPreparator.create_file_offset_table does (loader.py)
+            data = b"".join(lines)
+            if newline_lines(data) != lines:
+                raise HarnessError("generated lines are not the newline-terminated lines of the generated bytes")
             read = io.prepare_file_offset_table(path)
             if read is not None and read != len(lines):
-                raise HarnessError(f"prepare_file_offset_table counted {read} lines, file has {len(lines)}")
+                # what DocumentSetPreparator.create_file_offset_table does when the count is not the declared number of lines
+                # (today: a "\r" that is not followed by "\n" is a line end for the text-mode pass): the table is removed again
+                # (and DataError raised); the readers are driven on the file as it is.  The count itself is judged in the
+                # stream offsets.
+                io.remove_file_offset_table(path)
             name = f"ds{fidx}" if f["ds"] else f"idx{fidx}"
             typ = "typ" if f["type"] else None
             files[fidx] = lines
@@ -778,7 +819,13 @@ def drive_and_judge(ctx, case, files, targets, mc, make_source, prefix, extra_si
                         expected += [(None, l) for l in ls]
         if case["conflicts"] != "none" and any(x[0] is None for x in all_pairs):
             # update wrappers were normalised to canonical JSON; documents emitted under a conflicting id still count
-            norm = lambda pr: (None, json.dumps(json.loads(pr[1]), sort_keys=True))
+            def norm(pr):
+                # what is not a JSON document (a fragment of a line) stays as it is and is judged by the comparison
+                try:
+                    return (None, json.dumps(json.loads(pr[1]), sort_keys=True))
+                except (ValueError, TypeError):
+                    return (None, "not-json:" + repr(pr[1]))
+
             if sorted(map(norm, all_pairs)) != sorted(map(norm, expected)):
                 ctx.fail("not-exactly-once", "multiset of documents over all bulks differs from the corpus", len(expected), len(all_pairs))
         elif sorted(all_pairs, key=repr) != sorted(expected, key=repr):
@@ -1013,7 +1060,9 @@ def gen_reader(ctx):
         bulk = rng.choice([1, 2, 3, 4, 7, 50])
         batch = bulk * rng.choice([1, 1, 2, 5])
         case = {"kind": kind, "lines": nl, "offset": off, "count": cnt, "bulk": bulk, "batch": batch,
-                "style": rng.choice(STYLES), "nl": rng.random() < 0.8, "seed": rng.randrange(1 << 30)}
+                "style": rng.choice(BYTE_STYLES), "nl": rng.random() < 0.8, "seed": rng.randrange(1 << 30)}
+        if kind == "regular" and case["style"] == "ctl":
+            case["style"] = "cr"  # the oracle parses the documents of update actions
         if kind == "regular":
             nids = rng.choice([cnt, cnt, cnt + 3, max(cnt - 1, 0)])
             ids = [off + i for i in range(nids)]
@@ -1040,8 +1089,18 @@ def run_reader(ctx, case):
             if lines and not case["nl"] and len(lines) % 2 == 1:
                 lines[-1] = lines[-1].rstrip(b"\n")
         path = os.path.join(tmp, "data.json")
+        data = b"".join(lines)
         with open(path, "wb") as fh:
-            fh.write(b"".join(lines))
+            fh.write(data)
+        # the expectation of the oracle below: the newline-terminated lines of the BYTES written
+        if newline_lines(data) != lines:
+            raise HarnessError("generated lines are not the newline-terminated lines of the generated bytes")
+        if b"\r" in data.replace(b"\r\n", b""):
+            ctx.count("reader:bare-cr-in-a-line")
+        elif b"\r\n" in data:
+            ctx.count("reader:crlf-only")
+        if any(len(l.decode("utf-8").splitlines()) > 1 for l in lines):
+            ctx.count("reader:line-that-str.splitlines-would-cut")
         rng = random.Random(case["seed"])
         source = params.Slice(io.MmapSource, case["offset"], case["count"])
         margs = {k: case[k] for k in ("kind", "lines", "offset", "count", "bulk", "batch")}
@@ -1217,10 +1276,10 @@ def gen_offsets(ctx):
         big = k % 2 == 0
         if big:
             nl = rng.choice([50000, 50001, 49999, 100000, 100003, 150001]) if ctx.tier == "thorough" else rng.choice([50000, 50001, 100003, 49999])
-            style = rng.choice(["tiny", "var"])
+            style = rng.choice(["tiny", "var", "crlf", "cr"])
         else:
             nl = rng.choice([1, 2, 10, 100, rng.randrange(1, 300)])  # an empty file cannot be mmapped and is never opened (0 documents)
-            style = rng.choice(["var", "utf8", "tiny"])
+            style = rng.choice(["var", "utf8", "tiny", "cr", "ctl", "crlf"])
         targets = sorted(set([0, 1, nl, max(nl - 1, 0), nl + 3] + [rng.randrange(0, nl + 2) for _ in range(6)]
                              + ([49999, 50000, 50001, 99999, 100000, 100001] if big else [])))
         yield {"lines": nl, "style": style, "nl": rng.random() < 0.7, "seed": rng.randrange(1 << 30), "targets": targets,
@@ -1246,26 +1305,46 @@ def run_offsets(ctx, case):
         with open(path, "wb") as fh:
             fh.write(data)
         hexdata = data.hex()
+        if newline_lines(data) != lines:
+            raise HarnessError("generated lines are not the newline-terminated lines of the generated bytes")
+        bare_cr = b"\r" in data.replace(b"\r\n", b"")
         read = io.prepare_file_offset_table(path)
         table = []
         with open(path + ".offset", "rt") as fh:
             for row in fh:
                 a, b = row.strip().split(";")
                 table.append([int(a), int(b)])
-        m = ctx.model("bulk", "table", {"bytes": hexdata, "every": 50000})
-        if m["r"]["table"] != table or m["r"]["lines"] != read:
-            ctx.diff("offset table", m["r"], {"table": table, "lines": read})
-        if read != len(lines):
-            ctx.fail("line-count", "prepare_file_offset_table returns a wrong line count", len(lines), read)
-        again = io.prepare_file_offset_table(path)
-        if again is not None:
-            ctx.diff("valid table is rebuilt", None, again)
+        # the pass as the code runs it: text mode, universal newlines (model: textLines)
+        mt = ctx.model("bulklines", "texttable", {"bytes": hexdata, "every": 50000})
+        refused = bare_cr and read != len(lines)  # the preparator would refuse the file
+        if (mt["r"]["lines"] != read and (refused or not bare_cr)) or mt["r"]["nobarecr"] != (not bare_cr) or mt["r"]["nl_lines"] != len(lines):
+            ctx.diff("text-mode line count", {k: mt["r"][k] for k in ("lines", "nobarecr", "nl_lines")},
+                     {"lines": read, "nobarecr": not bare_cr, "nl_lines": len(lines)})
+        if bare_cr and not refused:
+            ctx.count("offsets:bare-cr-file-counted-by-newlines")
+        if not refused:
+            m = ctx.model("bulk", "table", {"bytes": hexdata, "every": 50000})
+            if m["r"]["table"] != table or m["r"]["lines"] != read or (not bare_cr and mt["r"]["table"] != table):
+                ctx.diff("offset table", m["r"], {"table": table, "lines": read})
+            if read != len(lines):
+                ctx.fail("line-count", "prepare_file_offset_table returns a wrong line count", len(lines), read)
+            again = io.prepare_file_offset_table(path)
+            if again is not None:
+                ctx.diff("valid table is rebuilt", None, again)
+        else:
+            # a "\r" not followed by "\n": the text-mode pass counts it as a line end (preparator_rejects_bare_cr);
+            # DocumentSetPreparator.create_file_offset_table compares with the declared number of lines, removes the table
+            # and raises DataError.  Expectation from the bytes; the linear path is judged below.
+            ctx.count("offsets:bare-cr-file-refused-by-preparator")
+            if read != text_mode_line_count(data):
+                ctx.fail("text-line-count", "prepare_file_offset_table does not count the text-mode lines", text_mode_line_count(data), read)
+            io.remove_file_offset_table(path)
         # cumulative byte offsets (independent)
         cum = [0]
         for l in lines:
             cum.append(cum[-1] + len(l))
-        for with_table in (True, False):
-            if not with_table:
+        for with_table in ((True, False) if not refused else (False,)):
+            if not with_table and not refused:
                 io.remove_file_offset_table(path)
             for t in case["targets"]:
                 src = io.MmapSource(path, "rt").open()
@@ -1282,7 +1361,102 @@ def run_offsets(ctx, case):
                 if pos != exp_pos or got != lines[t: t + case["read"]]:
                     ctx.fail("skip-lands-elsewhere", "after skip_lines(n) the source is not at the start of line n",
                              {"target": t, "pos": exp_pos, "table": with_table}, {"pos": pos})
-        ctx.sig([len(table), case["style"], case["nl"], case["lines"] >= 50000], nontrivial=case["lines"] > 0)
+        ctx.sig([len(table), case["style"], case["nl"], case["lines"] >= 50000, bare_cr, refused], nontrivial=case["lines"] > 0)
+    finally:
+        shutil.rmtree(tmp, ignore_errors=True)
+
+
+# ---------------------------------------------------------------------------------------------
+# stream: lines  (MmapSource.readlines / Slice on ARBITRARY bytes: a line ends at "\n" and only there)
+# ---------------------------------------------------------------------------------------------
+LINE_ATOMS = [b"\n", b"\n", b"\n", b"\r", b"\r\n", b"\r\r\n", b"\x0b", b"\x0c", b"\x1c", b"\x1d", b"\x1e", b"\xc2\x85",
+              b"\xe2\x80\xa8", b"\xe2\x80\xa9", b"{}", b"a", b" ", b"\t", b'{"k":1}', "é日".encode("utf-8"), b"\x00", b"\n\r", b"\n\n"]
+
+
+def gen_lines(ctx):
+    rng = ctx.rng
+    for _ in range(ctx.budget):
+        n_atoms = rng.choice([1, 2, 3, 5, 8, 13, 30, rng.randrange(1, 80)])
+        atoms = [rng.randrange(len(LINE_ATOMS)) for _ in range(n_atoms)]
+        nlines = sum(LINE_ATOMS[a].count(b"\n") for a in atoms) + 1
+        skip = rng.choice([0, 0, 1, 2, rng.randrange(0, nlines + 2)])
+        reads = [rng.choice([0, 1, 1, 2, 3, 5, nlines, rng.randrange(0, nlines + 3)]) for _ in range(rng.choice([1, 2, 3, 4]))]
+        yield {"atoms": atoms, "skip": skip, "reads": reads, "slice": [skip, rng.choice([nlines, 1, 2, rng.randrange(0, nlines + 3)])],
+               "chunk": rng.choice([1, 2, 3, 7])}
+
+
+def run_lines(ctx, case):
+    from esrally.track import params
+    from esrally.utils import io
+
+    data = b"".join(LINE_ATOMS[a] for a in case["atoms"])
+    exp = newline_lines(data)  # the expectation: derived from the bytes alone
+    tmp = tempfile.mkdtemp(prefix="c03-")
+    try:
+        path = os.path.join(tmp, "data.json")
+        with open(path, "wb") as fh:
+            fh.write(data)
+        # (1) readlines(k) call by call on one open source, after skip_lines
+        src = io.MmapSource(path, "rt").open()
+        calls = []
+        try:
+            io.skip_lines(path, src, case["skip"])
+            pos = src.mm.tell()
+            for k in case["reads"]:
+                got = src.readlines(k)
+                calls.append(([bytes(g) for g in got], src.mm.tell()))
+        finally:
+            src.close()
+        at = min(case["skip"], len(exp))
+        exp_pos = sum(len(l) for l in exp[:at])
+        if pos != exp_pos:
+            ctx.fail("skip-lands-elsewhere", "after skip_lines(n) the source is not at the start of line n", exp_pos, pos)
+        mpos, line_no = None, at
+        for k, (got, after) in zip(case["reads"], calls):
+            m = ctx.model("bulklines", "lines", {"bytes": data.hex(), "skip": line_no, "read": k})
+            if m["r"]["got"] != [g.hex() for g in got] or m["r"]["pos_after"] != after:
+                ctx.diff("readlines", {"got": m["r"]["got"][:4], "pos_after": m["r"]["pos_after"]},
+                         {"got": [g.hex() for g in got][:4], "pos_after": after, "k": k, "line": line_no})
+            want = exp[line_no: line_no + k]
+            if len(got) != len(want):
+                ctx.fail("readlines-element-count", "readlines(k) does not return k elements (fewer only at the end of the file)",
+                         {"k": k, "elements": len(want)}, {"elements": len(got)})
+            elif got != want:
+                ctx.fail("readlines-elements", "readlines(k) does not return the next k newline-terminated lines", [w.hex() for w in want][:4],
+                         [g.hex() for g in got][:4])
+            consumed = sum(len(w) for w in want)
+            if after != exp_pos + consumed or b"".join(got) != data[exp_pos: exp_pos + consumed]:
+                ctx.fail("readlines-consumed", "the elements of readlines(k) are not exactly the bytes consumed",
+                         {"from": exp_pos, "to": exp_pos + consumed}, {"to": after, "bytes": len(b"".join(got))})
+            exp_pos += consumed
+            line_no += len(want)
+            mpos = m["r"]
+        if mpos is not None and (mpos["count"] != len(exp) or mpos["nl"] != data.count(b"\n") or mpos["ends_nl"] != data.endswith(b"\n")
+                                 or mpos["text_count"] != text_mode_line_count(data)):
+            ctx.diff("line counts", {k: mpos[k] for k in ("count", "nl", "ends_nl", "text_count")},
+                     {"count": len(exp), "nl": data.count(b"\n"), "ends_nl": data.endswith(b"\n"), "text_count": text_mode_line_count(data)})
+        # (2) the caller: Slice(offset, number_of_lines) read in chunks of `chunk` lines until StopIteration
+        off, cnt = case["slice"]
+        sl = params.Slice(io.MmapSource, off, cnt)
+        sl.open(path, "rt", case["chunk"])
+        out = []
+        try:
+            for chunk in sl:
+                chunk = [bytes(c) for c in chunk]
+                if len(chunk) > case["chunk"]:
+                    ctx.fail("slice-chunk-over-size", "Slice hands out more lines than asked for", case["chunk"], len(chunk))
+                out += chunk
+                if len(out) > len(exp) + 5:
+                    raise HarnessError("slice does not terminate")
+        finally:
+            sl.close()
+        if out != exp[off: off + cnt]:
+            ctx.fail("slice-range", "a Slice does not deliver lines [offset, offset+count) of the file", [w.hex() for w in exp[off: off + cnt]][:6],
+                     [w.hex() for w in out][:6])
+        bare = b"\r" in data.replace(b"\r\n", b"")
+        ctx.count("lines:bare-cr" if bare else "lines:no-bare-cr")
+        ctx.sig([bare, data.endswith(b"\n"), len(exp) > 1, case["skip"] >= len(exp), off + cnt > len(exp), mpos.get("count") == mpos.get("text_count") if mpos else None],
+                nontrivial=len(exp) > 0)
     finally:
         shutil.rmtree(tmp, ignore_errors=True)
 
@@ -1875,6 +2049,7 @@ STREAMS = [
     Stream("e2e", gen_e2e, run_e2e, quick=240, thorough=4000, shards=16),
     Stream("reader", gen_reader, run_reader, quick=1600, thorough=60000, shards=8),
     Stream("gen", gen_gen, run_gen, quick=3000, thorough=100000, shards=4),
+    Stream("lines", gen_lines, run_lines, quick=400, thorough=20000, shards=4),
     Stream("offsets", gen_offsets, run_offsets, quick=16, thorough=200, shards=8),
     Stream("malformed", gen_malformed, run_malformed, quick=40, thorough=400, shards=2),
 ]
